@@ -10,6 +10,9 @@ ok, log = c.coq_make([], timeout=3000)
 print(log[-3000:])
 # a file that fails to build is reported by the check that owns it (its obligations are then not
 # discharged); setup itself only pre-builds, so it does not fail the whole restore
+import subprocess
+r = subprocess.run([sys.executable, '/verif/tools/lint_coq.py'], capture_output=True, text=True)
+print(r.stdout[-2000:])
 print('setup: coq build ' + ('ok' if ok else 'INCOMPLETE (see log above)'))
 sys.exit(0)
 PY
